@@ -12,6 +12,7 @@
   skip_one, leaks — lives in the runtime and is decided by the check's process-level observations
   (guard pages on both sides of the input, child processes for deep nesting, allocation balance).
 -/
+import SonicModel.Impl.Borrow
 import SonicModel.Impl.Depth
 import SonicModel.Thm.C02
 import SonicModel.Lemmas.SpecBound
@@ -120,7 +121,30 @@ theorem skip_stays_in_buffer (buf : Buf) (f i e : Nat)
   obtain ⟨g, hg⟩ := Sonic.Thm.C02.skipOne_sound buf f i e h
   exact (Sonic.Spec.bound false buf g (skipWs buf i) e).1 hg
 
+/-! ### results never point into memory that dies with the reader -/
+
+open Borrow in
+/-- **no result outlives its bytes**: for every carrier and every length, a `&'de str` handed out by typed
+    deserialization points into the caller's input, and a key handed out by an object iterator points into
+    the caller's input or is owned by the key itself — never into the reader -/
+theorem borrowed_results_outlive_the_reader (c : Borrow.Carrier) :
+    ((∀ n, c ≠ .ownedLazy n) → Borrow.borrowedStrHome false c = .callerInput) ∧
+    Borrow.keyHome false c ≠ .reader := by
+  cases c <;> simp [Borrow.borrowedStrHome, Borrow.keyHome, Borrow.readerBuffer]
+
+open Borrow in
+/-- as first written, exactly the short `&Bytes` / `&FastStr` inputs and every owning iterator handed out
+    references into the reader (the two `fix:` commits 6b1c9d6, 9760025) -/
+theorem old_readers_dangle (c : Borrow.Carrier) :
+    Borrow.keyHome true c = .reader ↔
+      (∃ n, n ≤ 24 ∧ (c = .bytes n ∨ c = .faststr n)) ∨ (∃ n, c = .ownedLazy n) := by
+  cases c <;> simp [Borrow.keyHome, Borrow.readerBufferOld, Borrow.handleShares, Borrow.inlineCap]
+  all_goals (first | omega | (constructor <;> intro h <;> omega))
+
 /-! non-vacuity -/
+example : Borrow.keyHome true (.faststr 7) = .reader := by decide
+example : Borrow.keyHome false (.faststr 7) = .callerInput := by decide
+example : Borrow.keyHome false (.ownedLazy 100) = .result := by decide
 example : visit 255 (.node [.node [.leaf], .leaf]) = some 255 := by decide
 example : visit 2 (.node [.node [.leaf]]) = none := by decide
 
